@@ -757,12 +757,16 @@ Definition spec_next (sp : spec_st) (i : input) (d : list entry) (post : snap) :
   let redrawn := sn_redraw (sp_pre sp) in
   (* updatePath refocuses the root when the focused widget has left the tree: one FocusOut,
      one FocusIn; any further delivery means that a handler moved the focus again *)
-  let again := Nat.ltb 2 (length (filter focus_entry d)) in
+  let again (t : tree) :=
+    Nat.ltb 2 (length (filter focus_entry d)) ||
+    (* ... and the path [root] it then stores is the chain only if the root surface is the
+       root widget's own (or the root widget is not drawn at all) *)
+    (existsb focus_entry d && negb (t_wid t =? sn_focused post) && existsb (Z.eqb (sn_focused post)) (ids t)) in
   let tr :=
     match i with
-    | PUpdatePath t => (Some t, again)
-    | PRender t => (Some (sort_tree t), again)
-    | IFrame t => if redrawn then (Some (sort_tree t), again) else (sp_tree sp, moved)
+    | PUpdatePath t => (Some t, again t)
+    | PRender t => (Some (sort_tree t), again t)
+    | IFrame t => if redrawn then (Some (sort_tree t), again t) else (sp_tree sp, moved)
     | _ => (sp_tree sp, moved)
     end in
   let fr :=
